@@ -9,17 +9,20 @@
 (* ClearValues = FALSE models clear() as written: keys are zeroed, values  *)
 (* stay.  Then the history  Eval(k) ; Clear ; Eval(0)  with k # 0,         *)
 (* k mod N = 0 returns F[k] for the pawnless structure.  ClearValues =     *)
-(* TRUE is the repair.  Transparent: every Eval(k) returns F[k].           *)
+(* TRUE is the repair.  HitBits models a hit test that compares only the   *)
+(* low part of the key (a table that stores a narrowed key): with HitBits  *)
+(* below the key range two structures agreeing in the compared bits share  *)
+(* one entry.  Transparent: every Eval(k) returns F[k].                    *)
 (***************************************************************************)
 EXTENDS Integers, Sequences, TLC
-CONSTANTS N, Keys, MaxOps, ClearValues
+CONSTANTS N, Keys, MaxOps, ClearValues, HitBits
 F == [k \in Keys |-> IF k = 0 THEN 0 ELSE 100 + k]
 VARIABLES table, last, ops
 vars == <<table, last, ops>>
 Init == table = [s \in 0..(N - 1) |-> [key |-> 0, value |-> 0]] /\ last = [key |-> 0, value |-> 0] /\ ops = 0
 Eval(k) == /\ ops < MaxOps
            /\ LET e == table[k % N] IN
-              IF e.key = k
+              IF e.key % HitBits = k % HitBits          \* HitBits > every key: full comparison; smaller: only the low part is compared
               THEN last' = [key |-> k, value |-> e.value] /\ UNCHANGED table
               ELSE last' = [key |-> k, value |-> F[k]] /\ table' = [table EXCEPT ![k % N] = [key |-> k, value |-> F[k]]]
            /\ ops' = ops + 1
